@@ -8,7 +8,7 @@ LEVEL = 'fault_enumeration'
 TECHNIQUE = 'fault injection with enumerated crash points: one party is stopped at a chosen byte offset of its total outgoing stream (EOF / reset / silent), survivors\' completed outputs are compared with the reference; hangs are decided by quiescence and allowed; plus application-level stops (an exception leaving `async with mpc:`, a process exit between rounds while the survivors guard their outputs with try/except and carry on)'
 RULE = ('case = (configuration, program, crashing party X, byte offset B in X\'s outgoing stream, end-of-stream mode, schedule); '
         'non-trivial = the crash happened before X finished (B < bytes X sends in the fault-free run) and >= 1 survivor was still waiting; distinct by that tuple')
-EXHAUSTIVE = 'thorough: every byte offset for m <= 3, every 2nd (m=4) / 5th (m=5) byte plus all frame-relative offsets; quick: every frame boundary of every party plus offsets +1,+8,+11,+12,+13 and mid-payload inside every frame, 3 end-of-stream modes; thorough: every byte offset'
+EXHAUSTIVE = 'thorough: every byte offset for m <= 3, every 2nd byte for m = 4, all frame-relative offsets for m = 5; quick: every frame boundary of every party plus offsets +1,+8,+11,+12,+13 and mid-payload inside every frame, 3 end-of-stream modes; thorough: every byte offset'
 ASSUMPTIONS = ['a crash = the party stops executing and its connections end (EOF or reset) or go silent; bytes written before the crash point are delivered',
                'SIM transport/loop assumptions as in C08']
 REQUIRE = {'any': {'crash_runs': 1000, 'survivor_outputs_checked': 1000, 'runs_where_survivors_hang': 100, 'crash_inside_frame': 300, 'stops_by_application_error': 200, 'crashes_with_guarded_survivors': 200}}
@@ -25,7 +25,7 @@ def shards(tier, seed):
     for c in cfgs:
         for p in range(PROGRAMS):
             for x in range(c[0]):
-                out.append({'name': f'm{c[0]}t{c[1]}{"np" if c[2] else "prss"}-prog{p}-X{x}', 'cfg': list(c), 'prog': p, 'X': x, 'every_byte': tier == 'thorough'})
+                out.append({'name': f'm{c[0]}t{c[1]}{"np" if c[2] else "prss"}-prog{p}-X{x}', 'cfg': list(c), 'prog': p, 'X': x, 'every_byte': tier == 'thorough' and c[0] <= 4})
     for c in [(3, 1, False), (4, 1, False), (3, 1, True), (5, 2, False)] + ([(5, 1, False), (4, 1, True), (2, 0, False)] if tier != 'quick' else []):
         out.append({'name': f'stop-m{c[0]}t{c[1]}{"np" if c[2] else "prss"}', 'kind': 'stop', 'cfg': list(c), 'reps': 8 if tier == 'quick' else 40})
     return out
